@@ -26,6 +26,10 @@ def values_equal(ex, so, vo, sn, vn):
         return None
     if isinstance(vo, Ref) and isinstance(vn, Ref):
         return cells_equal(ex, so, so.cell(vo), sn, sn.cell(vn))
+    if isinstance(vo, Ref) and isinstance(vn, (Arr, Arr2, LArr, SList)):
+        return cells_equal(ex, so, so.cell(vo), sn, vn)
+    if isinstance(vn, Ref) and isinstance(vo, (Arr, Arr2, LArr, SList)):
+        return cells_equal(ex, so, vo, sn, sn.cell(vn))
     if isinstance(vo, Sym) and isinstance(vn, Sym):
         if vo.t.eq(vn.t):
             return None
@@ -62,6 +66,10 @@ def cells_equal(ex, so, co, sn, cn):
             z3.ForAll([i, j], z3.Implies(
                 z3.And(i >= 0, i < co.n, j >= 0, j < co.alen(i)),
                 co.at(i, j) == cn.at(i, j))))
+    if isinstance(co, (SList, Arr)) and isinstance(cn, (SList, Arr)) and \
+            co.k == cn.k:
+        return z3.And(co.n == cn.n, A.forall_idx(
+            co.n, lambda i: co.at(i) == cn.at(i)))
     if isinstance(co, SList) and isinstance(cn, SList):
         return z3.And(co.n == cn.n, A.forall_idx(
             co.n, lambda i: co.at(i) == cn.at(i)))
